@@ -105,12 +105,12 @@ Theorem lint_on_characterisation : forall ub neg tok t,
   0 <= magnitude tok < 2 ^ 128 -> vt_is_integral t = true ->
   let l := fst (source_literal true neg tok) in
   admissible l t ->
-  (lint_on ub l t = true <-> ~ (vt_min t <= math_value neg tok <= lint_max ub t) \/ false_positive_on ub neg tok t).
+  (lint_on ub l t = true <-> ~ (vt_min t <= math_value neg tok <= lint_max ub t)).
 Proof.
   intros ub neg tok t Hub Hm Ht l Hadm. subst l.
   destruct (lint_max_range_facts ub t Hub Ht) as (A & B & Cc & D & E & F).
   set (mx := lint_max ub t) in *.
-  unfold source_literal, math_value, false_positive_on in *. fold mx.
+  unfold source_literal, math_value in *.
   norm_pow.
   pose proof (parse_primary_cases tok) as Hp.
   destruct (parse_primary tok) as [l0 s] eqn:Ep. cbn [fst] in *.
@@ -119,38 +119,24 @@ Proof.
   - destruct Hp as [[-> Hle] | ->]; cbn [fold_minus] in *.
     + (* signed literal: folded when positive *)
       destruct (Z.ltb_spec 0 m).
-      * cbn [lint_on]; fold mx. destruct (Z.ltb_spec (- m) 0); [|lia]. rewrite Z.ltb_lt. split.
-        -- intros Hq. left. lia.
-        -- intros [Hq | [_ [v [Hv _]]]]; [lia | discriminate Hv].
+      * cbn [lint_on]; fold mx. destruct (Z.ltb_spec (- m) 0); [|lia]. rewrite Z.ltb_lt. split; intros Hq; lia.
       * cbn [lint_on]; fold mx. assert (m = 0) by lia.
-        destruct (Z.ltb_spec m 0); [lia|]. rewrite Z.ltb_lt. split.
-        -- intros Hq. lia.
-        -- intros [Hq | [_ [v [Hv _]]]]; [lia | discriminate Hv].
+        destruct (Z.ltb_spec m 0); [lia|]. rewrite Z.ltb_lt. split; intros Hq; lia.
     + cbn [andb] in *. unfold i128_max in *. norm_pow.
       destruct (Z.eqb_spec m (170141183460469231731687303715884105728 - 1 + 1)) as [Em|Em].
       * (* magnitude 2^127: folded into i128::MIN *)
         cbn [lint_on]; fold mx. unfold i128_min. norm_pow.
         change (- (170141183460469231731687303715884105728) <? 0) with true. cbv iota. rewrite Z.ltb_lt. split.
-        -- intros Hq. left. lia.
-        -- intros [Hq | [_ [v [Hv [_ Hne]]]]].
-           ++ destruct (vt_is_signed t) eqn:S.
-              ** destruct (E eq_refl). lia.
-              ** rewrite (F eq_refl) in *. lia.
-           ++ injection Hv as <-. lia.
-      * (* unfolded negation of a bit-integer literal: needs a signed type *)
+        -- intros Hq. lia.
+        -- intros Hq. destruct (vt_is_signed t) eqn:S.
+           ++ destruct (E eq_refl). lia.
+           ++ rewrite (F eq_refl) in *. lia.
+      * (* unfolded negation of a bit-integer literal: needs a signed type; the Unary arm allows max + 1 *)
         cbn [admissible] in Hadm. destruct (E Hadm) as [E1 E2].
-        cbn [lint_on]; fold mx. rewrite Z.ltb_lt. split.
-        -- intros Hq. destruct (Z.eq_dec m (mx + 1)) as [Eq|Ne].
-           ++ right. split; [reflexivity|]. exists m. split; [reflexivity|]. split; [assumption|]. lia.
-           ++ left. lia.
-        -- intros [Hq | [_ [v [Hv [Hv2 _]]]]]; [lia|]. injection Hv as <-. lia.
+        cbn [lint_on]; fold mx. rewrite Hadm. rewrite Z.ltb_lt. split; intros Hq; lia.
   - destruct Hp as [[-> Hle] | ->]; cbn [lint_on]; fold mx.
-    + destruct (Z.ltb_spec m 0); [lia|]. rewrite Z.ltb_lt. split.
-      * intros Hq. left. lia.
-      * intros [Hq | [Hn _]]; [lia | discriminate Hn].
-    + rewrite Z.ltb_lt. split.
-      * intros Hq. left. lia.
-      * intros [Hq | [Hn _]]; [lia | discriminate Hn].
+    + destruct (Z.ltb_spec m 0); [lia|]. rewrite Z.ltb_lt. split; intros Hq; lia.
+    + rewrite Z.ltb_lt. split; intros Hq; lia.
 Qed.
 
 (* the host target (64-bit usize): the statement as it stood before the target became a parameter *)
@@ -158,11 +144,11 @@ Theorem lint_characterisation : forall neg tok t,
   0 <= magnitude tok < 2 ^ 128 -> vt_is_integral t = true ->
   let l := fst (source_literal true neg tok) in
   admissible l t ->
-  (lint l t = true <-> ~ (vt_min t <= math_value neg tok <= vt_max t) \/ false_positive neg tok t).
+  (lint l t = true <-> ~ (vt_min t <= math_value neg tok <= vt_max t)).
 Proof.
   intros neg tok t Hm Ht l Hadm.
   pose proof (lint_on_characterisation 64 neg tok t (or_intror eq_refl) Hm Ht Hadm) as H.
-  unfold false_positive_on in H. rewrite lint_max_64 in H. exact H.
+  rewrite lint_max_64 in H. exact H.
 Qed.
 
 (* Corollary on either target: a literal that raises no lint lies in the range its type has on that
@@ -177,7 +163,7 @@ Proof.
   intros ub neg tok t Hub Hm Ht Hadm Hl.
   pose proof (lint_on_characterisation ub neg tok t Hub Hm Ht Hadm) as [_ H].
   destruct (Z_le_dec (vt_min t) (math_value neg tok)); destruct (Z_le_dec (math_value neg tok) (lint_max ub t)); try lia;
-    (rewrite H in Hl; [discriminate | left; lia]).
+    (rewrite H in Hl; [discriminate | lia]).
 Qed.
 
 Lemma lint_max_is_target_range ub t : ub = 32 \/ ub = 64 -> vt_is_integral t = true -> vt_is_signed t = false ->
@@ -204,20 +190,21 @@ Proof.
   intros neg tok t Hm Ht Hadm Hl.
   pose proof (lint_characterisation neg tok t Hm Ht Hadm) as [_ H].
   destruct (Z_le_dec (vt_min t) (math_value neg tok)); destruct (Z_le_dec (math_value neg tok) (vt_max t)); try lia;
-    (rewrite H in Hl; [discriminate | left; lia]).
+    (rewrite H in Hl; [discriminate | lia]).
 Qed.
 
 (* The pinned commit (no folding of 2^127): i128::MIN written in decimal raised the lint. *)
 Lemma lint_i128_min_refuted :
-  lint (fst (source_literal false true (TNaked (2 ^ 127)))) Int128 = true /\
+  lint_pinned (fst (source_literal false true (TNaked (2 ^ 127)))) Int128 = true /\
   vt_min Int128 <= math_value true (TNaked (2 ^ 127)) <= vt_max Int128.
 Proof. vm_compute. split; [reflexivity | split; discriminate]. Qed.
 
-(* and the class that remains *)
+(* and the class that remained until D22 was repaired: the pinned linter flagged `-0x80` as i8; the current one does not *)
 Lemma lint_negated_bits_false_positive :
-  lint (fst (source_literal true true (TBits 128))) Int8 = true /\
+  lint_pinned (fst (source_literal true true (TBits 128))) Int8 = true /\
+  lint (fst (source_literal true true (TBits 128))) Int8 = false /\
   vt_min Int8 <= math_value true (TBits 128) <= vt_max Int8.
-Proof. vm_compute. split; [reflexivity | split; discriminate]. Qed.
+Proof. vm_compute. split; [reflexivity | split; [reflexivity | split; discriminate]]. Qed.
 
 (* ---- value of a literal --------------------------------------------------------- *)
 Theorem bits_of_correct : forall usize_bits neg tok t,
